@@ -56,15 +56,17 @@ inductive Code where
   | anyAnc        -- eMATCH_ANY_ANCESTOR                 A
   | immAnc        -- eMATCH_IMMEDIATE_ANCESTOR           I
   | anyAncPred    -- eMATCH_ANY_ANCESTOR_WITH_PREDICATE  P
+  | fn (any : Bool) -- eOP_FUNCTION (id()/key() call) F, followed by eMATCH_ANY_ANCESTOR_WITH_FUNCTION_CALL (G) when `//` follows
 deriving DecidableEq, Repr, Inhabited
 
 def Code.char : Code → Char
-  | .fromRoot => 'R' | .attr => '@' | .anyAnc => 'A' | .immAnc => 'I' | .anyAncPred => 'P'
+  | .fromRoot => 'R' | .attr => '@' | .anyAnc => 'A' | .immAnc => 'I' | .anyAncPred => 'P' | .fn _ => 'F'
 
 /-- node test operand of a compiled step: the pattern grammar's tests plus `eNODETYPE_ROOT` -/
 inductive MTest where
   | t (t : Test)
   | root
+  | set (S : List Nat)   -- the node-set an id()/key() call evaluates to (eOP_FUNCTION step)
 deriving DecidableEq, Repr, Inhabited
 
 structure MStep where
@@ -104,6 +106,7 @@ def compilePath (p : Path) : List MStep :=
 def tester (d : Doc) (attrTester : Bool) (t : MTest) (m : Nat) : Score :=
   match t with
   | .root => if d.kind m == .root then .other else .none                       -- testRoot
+  | .set S => if S.contains m then .other else .none                             -- `n == context` over the node list
   | .t (.name s) =>
     if d.kind m == (if attrTester then Kind.attr else Kind.elem) && d.name m == s then .qname else .none
   | .t .any => if d.kind m == (if attrTester then Kind.attr else Kind.elem) then .nodeTest else .none
@@ -155,8 +158,10 @@ def handleFoundIndex (v : Variant) (d : Doc) (s : MStep) (ctx : Nat) : Score :=
   | none => .none
   | some p => if (fwdStep v d p s).contains ctx then .other else .none
 
+/-- `PredicateExpr` replaces eOP_PREDICATE by eOP_PREDICATE_WITH_POSITION exactly when the body calls `position()`
+or `last()` anywhere (`m_positionPredicateStack`); compared with the real op map on every run -/
 def Pred.usesPos : Pred → Bool
-  | .last | .posEq _ | .posNeLast => true
+  | .last | .posEq _ | .posNeLast | .lastEq _ | .lastGt _ | .posLtLast | .lastMinus1 => true
   | _ => false
 
 /-- `XPath::doStepPredicate` over the predicates still to be looked at -/
@@ -222,6 +227,7 @@ def evalStepAt (v : Variant) (d : Doc) (s : MStep) (nextCode : Option Code) (con
     | .immAnc =>
       if d.kind context != .attr then (childTest v d s context, some context, true)
       else (.none, some context, true)
+    | .fn _ => (.none, some context, true)     -- id()/key() steps: modelled for the backtracking matcher only (`lppB`)
   let score := r.1
   let score :=
     match r.2.1 with
@@ -271,6 +277,7 @@ def stepAtB (v : Variant) (d : Doc) (s : MStep) (x : Nat) : Score :=
   match s.code with
   | .fromRoot => if d.kind x == .root then .other else .none
   | .attr => attrBody v d s x
+  | .fn _ => tester d false s.test x              -- eOP_FUNCTION: is the node in the call's node-set
   | _ => if d.kind x != .attr then anyBody v d s x else .none
 
 /-- the steps to the left (`revLeft`, nearest first) of a step matched at `x` -/
@@ -280,7 +287,7 @@ def leftOK (v : Variant) (d : Doc) : List MStep → Nat → Bool
     match d.parent x with
     | none => false
     | some p =>
-      if s.code == .anyAnc || s.code == .anyAncPred then
+      if s.code == .anyAnc || s.code == .anyAncPred || s.code == .fn true then
         (d.ancOrSelf p).any fun a => stepAtB v d s a != .none && leftOK v d rest a
       else stepAtB v d s p != .none && leftOK v d rest p
 
@@ -291,6 +298,17 @@ def lppB (v : Variant) (d : Doc) : List MStep → List MStep → Nat → Score
     let sc := stepAtB v d s n
     if sc != .none && leftOK v d revLeft n then (if revLeft.isEmpty then sc else .other) else .none
   | s :: s' :: r, revLeft, n => lppB v d (s' :: r) (s :: revLeft) n
+
+/-- `IdKeyPattern (('/' | '//') RelativePathPattern)?` compiled: eOP_FUNCTION, then
+eMATCH_ANY_ANCESTOR_WITH_FUNCTION_CALL when `//` follows, then the relative path -/
+def compileFn (p : FnPath) : List MStep :=
+  { code := .fn (match p.steps with | (.desc, _) :: _ => true | _ => false), test := .set p.S, preds := [] } ::
+    compileSteps p.steps
+
+/-- `getMatchScore` of an id()/key()-leading pattern (backtracking matcher; the any-ancestor search of the
+eOP_FUNCTION case — `while(context != 0 && fFound == false)` — is the `fn true` arm of `leftOK`) -/
+def getMatchScoreFn (v : Variant) (d : Doc) (p : FnPath) (n : Nat) : Score :=
+  if v.backtrack then lppB v d (compileFn p) [] n else .none
 
 /-- `XPath::locationPathPattern` -/
 def locationPathPattern (v : Variant) (d : Doc) (steps : List MStep) (n : Nat) : Score :=
